@@ -221,6 +221,14 @@ theorem OInv.step {g g' : GState} {e : Ev} (ho : OInv g) (hk : KInv g.s) (hi : H
     · subst e; simp [hi.hB _ (Nat.le_refl _)]
     · rw [upd_ne _ _ e]
   | joinFail a h => obtain ⟨_, _, _, _, _, e'⟩ := joinFail_ok hs; rw [e']; exact ho.frame (fun _ => rfl) rfl (Nat.le_refl _) rfl
+  | tlsFail t k gt => obtain ⟨_, _, _, _, _, e'⟩ := tlsFail_ok hs; rw [e']; exact ho.frame (fun _ => rfl) rfl (Nat.le_refl _) rfl
+  | currentFail t =>
+    obtain ⟨_, _, e'⟩ := currentFail_ok hs; rw [e']
+    refine ho.frame ?_ rfl (Nat.le_succ _) rfl
+    intro h; simp only
+    by_cases e : h = g.s.nH
+    · subst e; simp [hi.hB _ (Nat.le_refl _)]
+    · rw [upd_ne _ _ e]
 
 /-- a thread that holds a reference of its own is among the pooled holders -/
 theorem OInv.pooled {g : GState} (ho : OInv g) {a h : Nat} (hp : 0 < g.owns a h) : 0 < (g.s.hdl h).userRefs := by
